@@ -152,6 +152,36 @@ def static_driver(name, variant, extra_flags=()):
         _run([cc] + SAN_FLAGS[sanclass] + ["-o", "@OUT@", obj, common, "-lpthread", "-ldl", "-rdynamic"], out)
     return out
 
+OVR_SO_FLAGS = ["-fPIC", "-fvisibility=hidden", "-ftls-model=initial-exec", "-DMI_MALLOC_OVERRIDE", "-DMI_SHARED_LIB", "-DMI_SHARED_LIB_EXPORT"]
+def override_lib(kind="rel"):
+    """the drop-in override: shared library for LD_PRELOAD (kind rel | dbg) """
+    out = os.path.join(build_dir(), "libmi_ovr_%s.so" % kind)
+    with _lock_for(out):
+        if not os.path.exists(out):
+            fl = ["-O2", "-DNDEBUG"] if kind == "rel" else ["-O1", "-DMI_DEBUG=2"]
+            _run(["gcc"] + COMMON_C + fl + OVR_SO_FLAGS + ["-shared", os.path.join(REPO, "src", "static.c"), "-o", "@OUT@", "-lpthread"], out)
+    return out
+def override_obj():
+    """the static override object (like CMake's mimalloc-obj target)"""
+    out = os.path.join(build_dir(), "mi_ovr_static.o")
+    with _lock_for(out):
+        if not os.path.exists(out):
+            _run(["gcc"] + COMMON_C + ["-O2", "-DNDEBUG", "-DMI_MALLOC_OVERRIDE", "-c", os.path.join(REPO, "src", "static.c"), "-o", "@OUT@"], out)
+    return out
+def ovr_program(name, static=False):
+    """test programs that use only the platform's allocation entry points (no mimalloc headers)"""
+    src = os.path.join(HARNESS, "ovr", name)
+    cxx = name.endswith(".cpp")
+    out = os.path.join(build_dir(), os.path.splitext(name)[0] + ("_static" if static else ""))
+    with _lock_for(out):
+        if not os.path.exists(out):
+            cc = ["g++", "-std=gnu++17"] if cxx else ["gcc", "-std=gnu11"]
+            if static:
+                _run(cc + ["-O1", "-g", "-w", "-o", "@OUT@", override_obj(), src, "-lpthread", "-ldl", "-rdynamic"], out)   # the override object comes first on the link line
+            else:
+                _run(cc + ["-O1", "-g", "-w", "-o", "@OUT@", src, "-ldl"], out)
+    return out
+
 def build_many(pairs, jobs=8):
     """pairs: list of (driver name, variant); builds in parallel, returns dict"""
     res = {}
@@ -161,16 +191,19 @@ def build_many(pairs, jobs=8):
             res[k] = f.result()
     return res
 
-def prune_old(keep=3):
-    """keep only the most recently used build directories (disk space)"""
+def prune_old(max_age_s=5400):
+    """remove build directories of other trees that have not been used for a while (disk space); never the current one"""
     if not os.path.isdir(BUILD_ROOT):
         return
     cur = os.path.basename(build_dir())
-    ds = []
+    now = time.time()
     for d in os.listdir(BUILD_ROOT):
         p = os.path.join(BUILD_ROOT, d)
-        if os.path.isdir(p) and d != cur:
-            ds.append((os.path.getmtime(p), p))
-    ds.sort(reverse=True)
-    for _, p in ds[max(0, keep - 1):]:
-        shutil.rmtree(p, ignore_errors=True)
+        if not os.path.isdir(p) or d == cur:
+            continue
+        try:
+            newest = max([os.path.getmtime(p)] + [os.path.getmtime(os.path.join(p, f)) for f in os.listdir(p)])
+        except OSError:
+            continue
+        if now - newest > max_age_s:
+            shutil.rmtree(p, ignore_errors=True)
